@@ -228,7 +228,8 @@ TraceConvertEnd ==
               ELSE IF run = 1 THEN Append(cmemo, <<>>) ELSE cmemo
   /\ IF e.cres # "ok" THEN Consume({"C20:helper-failed-on-a-valid-definition"})
      ELSE IF e.res = "panic" THEN Consume({"C20:target-left-with-unclosed-changes"})
-     ELSE LET m == ConvertModel(src.defs, src.variants, kind, last.strategy) IN
+     ELSE LET closed == "strategy" \in DOMAIN last      \* the target saw at least one close
+              m == ConvertModel(src.defs, src.variants, kind, last.strategy) IN
           Consume(If(e.variants # variants \/ ~SameButOffsets(ObsDefs, defs),
                      "C12:built-target-differs-from-builder-state")
              \cup If(~VMapOk \/ Len(e.map) # Len(src.variants), "C20:variant-map-incomplete")
@@ -239,7 +240,7 @@ TraceConvertEnd ==
                      /\ (cmemo[cidx + 1].variants # e.variants \/ cmemo[cidx + 1].offs # ObsOffs
                          \/ cmemo[cidx + 1].code # e.code_hash),
                      "C19:replaying-a-definition-through-the-helper-differs-between-runs")
-             \cup If(Len(src.variants) > 0
+             \cup If(Len(src.variants) > 0 /\ closed
                      /\ (m.b.variants # e.variants \/ m.b.defs # ObsDefs), "DRIFT:convert"))
 
 ------------------------------------------------------------------------------
